@@ -22,7 +22,7 @@ func mkSym(F *smt.Factory, name string, n int) *Str {
 	return &Str{s: s}
 }
 
-const alphabet = "a&<>\"';#lt gmpA\n\t{}|.=!x"
+const alphabet = "a&<>\"';#lt gmpA\n\t{}|.=!x/<>\"\""
 
 func randModel(r *rand.Rand, name string, n int) smt.Model {
 	m := smt.Model{}
@@ -80,6 +80,11 @@ func TestStrLibAgainstNative(t *testing.T) {
 		)
 	}
 	bools = append(bools, boolOp{"containsAny", L.containsAny(s, "<>&\"'"), func(x string) bool { return strings.ContainsAny(x, "<>&\"'") }})
+	to, tq := L.htmlShape(s)
+	ints = append(ints,
+		intOp{"tagOpens", F.Zext(to, 64), func(x string) int { n, _ := htmlShapeNative(x); return n }},
+		intOp{"tagQuotes", F.Zext(tq, 64), func(x string) int { _, n := htmlShapeNative(x); return n }},
+	)
 	ints = append(ints,
 		intOp{"indexAny", L.indexAny(s, "&'<>\"\r"), func(x string) int { return strings.IndexAny(x, "&'<>\"\r") }},
 		intOp{"lastIndexAny", L.lastIndexAny(s, "a&"), func(x string) int { return strings.LastIndexAny(x, "a&") }},
